@@ -98,52 +98,40 @@ lexer). -/
 def print_parses_back_full : Prop :=
   ∀ e : E, ∃ F, ∀ f, F ≤ f → ∃ t, parseE f (printE e) = some t ∧ norm t = norm (reify e)
 
-/-- Witness of finding F23: `Binary(^, Number(-k), x)` is written `-k ^ x`. -/
-def f23Witness : E := .bin .pow (.negnum 0) (.atom 1)
-
-/-- The full statement is false of the code (finding F23). -/
-theorem print_parses_back_full_false : ¬ print_parses_back_full := by
-  intro h
-  obtain ⟨F, hF⟩ := h f23Witness
-  -- what the text really means
-  obtain ⟨F', hF'⟩ := parse_of_WP (.un .neg (.bin .pow (.atom 0) (.atom 1))) (by decide)
-  obtain ⟨t, ht, hn⟩ := hF (max F F') (by omega)
-  have h2 := hF' (max F F') (by omega)
-  have hp : printE f23Witness = flat (.un .neg (.bin .pow (.atom 0) (.atom 1))) := by decide
-  rw [hp, h2] at ht
-  cases ht
-  revert hn
-  decide
-
-/-- Under H₂ (no negative literal as left operand of `^` or directly under `::`) the statement
-holds for every expression: by structural induction (`sub_flat`, `WP_addParens`). -/
-theorem print_parses_back_partial (e : E) (h : H2 e = true) :
-    ∃ F, ∀ f, F ≤ f → ∃ t, parseE f (printE e) = some t ∧ norm t = norm (reify e) := by
-  obtain ⟨F, hF⟩ := parse_of_WP (addParens e) (WP_addParens e h)
-  refine ⟨F, fun f hf => ⟨reify (addParens e), ?_, norm_reify_addParens e⟩⟩
-  rw [printE_eq_flat]
-  exact hF f hf
-
 /-- The parser's answer is exactly the tree with the parentheses darklua adds (nothing else
-is lost or invented). -/
-theorem print_parses_exact (e : E) (h : H2 e = true) :
+is lost or invented) — for EVERY expression, by structural induction (`sub_flat`,
+`WP_addParens`). -/
+theorem print_parses_exact (e : E) :
     ∃ F, ∀ f, F ≤ f → parseE f (printE e) = some (reify (addParens e)) := by
-  obtain ⟨F, hF⟩ := parse_of_WP (addParens e) (WP_addParens e h)
+  obtain ⟨F, hF⟩ := parse_of_WP (addParens e) (WP_addParens e)
   exact ⟨F, fun f hf => by rw [printE_eq_flat]; exact hF f hf⟩
 
--- non-vacuity: H₂ holds of the design's examples, and the driver's fuel is enough for them
-example : H2 (.un .neg (.bin .pow tA tB)) = true ∧
-    parseE 20 (printE (.un .neg (.bin .pow tA tB))) = some (.un .neg (.bin .pow tA tB)) := by decide  -- -x^2
-example : H2 (.bin .pow (.un .neg tA) tB) = true ∧
-    parseE 20 (printE (.bin .pow (.un .neg tA) tB)) = some (.bin .pow (.paren (.un .neg tA)) tB) := by decide  -- (-x)^2
+/-- The full statement holds (since the fix of finding F23: a negative number literal is
+parenthesised as the left operand of `^` and under `::`). -/
+theorem print_parses_back : print_parses_back_full := by
+  intro e
+  obtain ⟨F, hF⟩ := print_parses_exact e
+  exact ⟨F, fun f hf => ⟨reify (addParens e), hF f hf, norm_reify_addParens e⟩⟩
+
+/-- Former witness of finding F23, `Binary(^, Number(-k), x)`: now written `(-k) ^ x`. -/
+def f23Witness : E := .bin .pow (.negnum 0) (.atom 1)
+
+-- regression: the fixed model parenthesises the witness, and it reads back as itself
+example : printE f23Witness = [.lp, .minus, .atom 0, .rp, .bop .pow, .atom 1] ∧
+    (parseE 20 (printE f23Witness)).map norm = some (norm (reify f23Witness)) := by decide
+example : printE (.cast (.negnum 0) 1) = [.lp, .minus, .atom 0, .rp, .dcolon, .tname 1] ∧
+    (parseE 20 (printE (.cast (.negnum 0) 1))).map norm = some (norm (reify (.cast (.negnum 0) 1))) := by decide
+
+-- non-vacuity: the design's examples, with the driver's fuel
+example : parseE 20 (printE (.un .neg (.bin .pow tA tB))) = some (.un .neg (.bin .pow tA tB)) := by decide  -- -x^2
+example : parseE 20 (printE (.bin .pow (.un .neg tA) tB)) = some (.bin .pow (.paren (.un .neg tA)) tB) := by decide  -- (-x)^2
 example : parseE 20 (printE (.bin .pow tA (.un .neg tB))) = some (.bin .pow tA (.un .neg tB)) := by decide  -- 2^-x
 example : parseE 20 (printE (.bin .concat tA (.bin .concat tB tC))) = some (.bin .concat tA (.bin .concat tB tC)) ∧
     parseE 20 (printE (.bin .concat (.bin .concat tA tB) tC)) = some (.bin .concat (.paren (.bin .concat tA tB)) tC) := by
   decide
 example : parseE 20 (printE (.un .not (.bin .eq tA tB))) = some (.un .not (.paren (.bin .eq tA tB))) := by decide
-example : H2 (.bin .add (.ifexp tC tA tB) tA) = true ∧
-    parseE 30 (printE (.bin .add (.ifexp tC tA tB) tA)) = some (.bin .add (.paren (.ifexp tC tA tB)) tA) := by decide
-example : H2 f23Witness = false ∧ H2 (.bin .pow tA (.negnum 0)) = true := by decide
+example : parseE 30 (printE (.bin .add (.ifexp tC tA tB) tA)) = some (.bin .add (.paren (.ifexp tC tA tB)) tA) := by decide
+example : parseE 20 (printE (.bin .pow tA (.negnum 0))) = some (.bin .pow tA (.un .neg (.atom 0))) := by decide  -- 2^-1
 
 /-! ## 4. the writer state machine (dense and readable), for every column span -/
 
